@@ -27,6 +27,8 @@ pub enum HOp {
 	AddBA,
 	DustAB,
 	SmallBA,
+	/// an HTLC larger than both balances: it is the last (largest) output of the commitment
+	HugeAB,
 	Claim,
 	Fail,
 	Fee,
@@ -98,7 +100,14 @@ pub struct Outcome {
 /// Runs one case. Err((oracle, detail)) = violation.
 pub fn run_case(c: &Case) -> Result<Option<Outcome>, (String, String)> {
 	let viol = |o: &str, d: String| (o.to_string(), d);
-	let mut w = World::new(vec![user_config(c.ct), user_config(c.ct)], 253);
+	// the in-flight cap is lifted so that one HTLC can be the largest output of a commitment
+	let cfg = |ct: Ct| {
+		let mut u = user_config(ct);
+		u.channel_handshake_config.announced_channel_max_inbound_htlc_value_in_flight_percentage = 100;
+		u.channel_handshake_config.unannounced_channel_max_inbound_htlc_value_in_flight_percentage = 100;
+		u
+	};
+	let mut w = World::new(vec![cfg(c.ct), cfg(c.ct)], 253);
 	let cid = w.open_channel(0, 1, 1_000_000, 400_000_000);
 	if c.ct != Ct::Static {
 		w.fund_wallets();
@@ -109,13 +118,14 @@ pub fn run_case(c: &Case) -> Result<Option<Outcome>, (String, String)> {
 	let mut pending: Vec<(usize, usize)> = Vec::new();
 	for op in c.history.iter() {
 		match op {
-			HOp::AddAB | HOp::DustAB | HOp::AddBA | HOp::SmallBA => {
+			HOp::AddAB | HOp::DustAB | HOp::AddBA | HOp::SmallBA | HOp::HugeAB => {
 				if pending.len() >= 3 {
 					return Ok(None);
 				}
 				let (from, to, amt) = match op {
 					HOp::AddAB => (0, 1, 40_000_000 + 1_000_000 * pending.len() as u64),
 					HOp::DustAB => (0, 1, 200_000),
+					HOp::HugeAB => (0, 1, 450_000_000),
 					HOp::AddBA => (1, 0, 30_000_000 + 1_000_000 * pending.len() as u64),
 					_ => (1, 0, 600_000),
 				};
@@ -167,7 +177,7 @@ pub fn run_case(c: &Case) -> Result<Option<Outcome>, (String, String)> {
 	// the honest B disappears; a shadow restored from the old state takes its place
 	w.offline[1] = true;
 	let blocks = w.chain.blocks.clone();
-	let mut shadow = McNode::shadow_from_bytes(b'B', user_config(c.ct), 253, &s.manager, &[(cid, s.monitor.clone())], &blocks)
+	let mut shadow = McNode::shadow_from_bytes(b'B', cfg(c.ct), 253, &s.manager, &[(cid, s.monitor.clone())], &blocks)
 		.map_err(|e| viol("harness", e))?;
 	for u in w.nodes[1].wallet.list_confirmed_utxos().unwrap_or_default() {
 		if let Ok(prev) = w.nodes[1].wallet.get_prevtx(u.outpoint) {
@@ -364,7 +374,7 @@ pub fn run_case(c: &Case) -> Result<Option<Outcome>, (String, String)> {
 }
 
 fn histories(max_len: usize) -> Vec<Vec<HOp>> {
-	let alpha = [HOp::AddAB, HOp::AddBA, HOp::DustAB, HOp::SmallBA, HOp::Claim, HOp::Fail, HOp::Fee];
+	let alpha = [HOp::AddAB, HOp::AddBA, HOp::DustAB, HOp::SmallBA, HOp::HugeAB, HOp::Claim, HOp::Fail, HOp::Fee];
 	let mut out: Vec<Vec<HOp>> = vec![vec![]];
 	let mut frontier: Vec<Vec<HOp>> = vec![vec![]];
 	for _ in 0..max_len {
@@ -379,6 +389,7 @@ fn histories(max_len: usize) -> Vec<Vec<HOp>> {
 				let ok = match a {
 					HOp::Claim | HOp::Fail => pending > 0,
 					HOp::Fee => !h.contains(&HOp::Fee),
+					HOp::HugeAB => pending < 3 && !h.contains(&HOp::HugeAB),
 					_ => pending < 3,
 				};
 				if ok {
